@@ -382,7 +382,7 @@ type selfKey struct {
 	id peer.ID
 }
 
-func (c *CoreAPI) Key() coreiface.KeyAPI                            { return &keyAPI{id: c.Peer} }
+func (c *CoreAPI) Key() coreiface.KeyAPI                          { return &keyAPI{id: c.Peer} }
 func (k *keyAPI) Self(ctx context.Context) (coreiface.Key, error) { return &selfKey{id: k.id}, nil }
 func (k *selfKey) ID() peer.ID                                    { return k.id }
 func (k *selfKey) Name() string                                   { return "self" }
